@@ -54,15 +54,10 @@ def Scheme.needsParent : Scheme → Bool
   | .texCoords | .texCoordsDeprecated | .geometricNormal _ => true
   | _ => false
 
-/-- `SequentialIntegerAttributeDecoder::DecodeValues` + `DecodeIntegerValues` for an attribute of
-    an Edgebreaker mesh, every bitstream version. `kind`: 1 integer, 2 quantization, 3 normals;
-    `nc`: components of the portable values, `attComponents`: of the attribute. Returns the portable
-    values and, before 2.0, the transform parameters that precede them. -/
-def decodeIntegerValuesEb (kind numEntries nc attComponents : Nat) (md : MeshData) (pointIds : Array Nat)
-    (parent : Option Parent) : DecM (Array Int × TransformData) := do
-  let ver ← version
-  let pre20 := ver < bsVersion 2 0
-  let pre22 := ver < bsVersion 2 2
+/-- first part of `DecodeIntegerValues`: the prediction method byte, the transform byte and the prediction
+    scheme object `CreateIntPredictionScheme` builds from them (with the reason when the combination is outside the
+    model, "" otherwise) -/
+def readSchemeEb (kind : Nat) : DecM (Scheme × String) := do
   let rem0 ← remaining
   let method ← rdI8
   -- position of the method byte, counted from the end of the stream (for the generators of
@@ -88,8 +83,12 @@ def decodeIntegerValuesEb (kind numEntries nc attComponents : Nat) (md : MeshDat
       else if method == Generated.MESH_PREDICTION_TEX_COORDS_PORTABLE then scheme := .texCoords
       else if method == Generated.MESH_PREDICTION_GEOMETRIC_NORMAL then unsupp := "geometric normal prediction with the wrap transform"
       else scheme := .deltaWrap
-  if unsupp != "" then failWith (.unsupported unsupp) else
-  -- InitPredictionScheme: the schemes with a parent attribute
+  pure (scheme, unsupp)
+
+/-- `InitPredictionScheme` for the schemes with a parent attribute: the position sources -/
+def parentSourcesEb (scheme : Scheme) (pointIds : Array Nat) (parent : Option Parent) :
+    DecM (PosSource × PosSourceF × String) := do
+  let mut unsupp := ""
   let mut pos : PosSource := { pointIds := #[], map := #[], values := #[] }
   let mut posF : PosSourceF := { pointIds := #[], map := #[], values := #[] }
   if scheme.needsParent then
@@ -103,35 +102,31 @@ def decodeIntegerValuesEb (kind numEntries nc attComponents : Nat) (md : MeshDat
       else
         if !p.intsOk then unsupp := "integer prediction scheme with the non-portable parent attribute of a stream < 2.0"
         pos := { pointIds := pointIds, map := p.map, values := p.ints }
-  if unsupp != "" then failWith (.unsupported unsupp) else
-  -- DecodeIntegerValues; before 2.0 the quantization / octahedral parameters come first
-  let tr ← if pre20 then decodeTransformParams kind attComponents else pure TransformData.none
-  require (nc > 0)
-  let numValues := numEntries * nc
-  alloc "integer_decoder.portable_attribute" (4 * numValues)
-  require (numEntries > 0)
+  pure (pos, posF, unsupp)
+
+/-- the coded values of `DecodeIntegerValues`: `DecodeSymbols` or the raw bytes -/
+def readCodedValuesEb (pre20 : Bool) (numValues nc : Nat) : DecM (List Nat) := do
   let compressed ← rdU8
-  let raw : List Nat ←
-    if compressed > 0 then lift (decodeSymbolsV pre20 numValues nc)
-    else do
-      let numBytes ← rdU8
-      if numBytes == 4 then
-        let b ← bytes (4 * numValues)
-        pure (leGroups 4 b)
-      else
-        require (numBytes * numValues ≤ 4 * numValues)
-        let rem ← remaining
-        require (numBytes * numValues ≤ rem)
-        if numBytes == 0 then pure (List.replicate numValues 0) else
-        let b ← bytes (numBytes * numValues)
-        pure (leGroups numBytes b)
-  let octa := match scheme with
-    | .deltaOcta _ | .geometricNormal _ => true
-    | _ => false
-  let vals : Array Int :=
-    if octa then (raw.map (toSigned 32)).toArray else (raw.map ofSymbol).toArray
+  if compressed > 0 then lift (decodeSymbolsV pre20 numValues nc)
+  else do
+    let numBytes ← rdU8
+    if numBytes == 4 then
+      let b ← bytes (4 * numValues)
+      pure (leGroups 4 b)
+    else
+      require (numBytes * numValues ≤ 4 * numValues)
+      let rem ← remaining
+      require (numBytes * numValues ≤ rem)
+      if numBytes == 0 then pure (List.replicate numValues 0) else
+      let b ← bytes (numBytes * numValues)
+      pure (leGroups numBytes b)
+
+/-- `DecodePredictionData` + `ComputeOriginalValues` of the scheme on the corrections `vals` -/
+def applySchemeEb (ver : Nat) (scheme : Scheme) (md : MeshData) (pos : PosSource) (posF : PosSourceF) (nc : Nat)
+    (vals : Array Int) : DecM (Array Int) := do
+  let pre22 := ver < bsVersion 2 2
   let numCorners := 3 * md.t.numFaces
-  let out : Array Int ← match scheme with
+  match scheme with
   | .none => pure vals
   | .deltaWrap =>
     tag "pred:delta"
@@ -219,6 +214,34 @@ def decodeIntegerValuesEb (kind numEntries nc attComponents : Nat) (md : MeshDat
     tag ((if flipped > 0 then "pred:geometric_normal:flipped" else "pred:geometric_normal")
          ++ (if legacyOcta then "(legacy octahedron)" else "") ++ (if oneTriangle then "(one triangle)" else ""))
     pure r
+
+/-- `SequentialIntegerAttributeDecoder::DecodeValues` + `DecodeIntegerValues` for an attribute of
+    an Edgebreaker mesh, every bitstream version. `kind`: 1 integer, 2 quantization, 3 normals;
+    `nc`: components of the portable values, `attComponents`: of the attribute. Returns the portable
+    values and, before 2.0, the transform parameters that precede them.
+    (Composition of `readSchemeEb`, `parentSourcesEb`, `readCodedValuesEb`, `applySchemeEb`.) -/
+def decodeIntegerValuesEb (kind numEntries nc attComponents : Nat) (md : MeshData) (pointIds : Array Nat)
+    (parent : Option Parent) : DecM (Array Int × TransformData) := do
+  let ver ← version
+  let pre20 := ver < bsVersion 2 0
+  let (scheme, unsupp) ← readSchemeEb kind
+  if unsupp != "" then failWith (.unsupported unsupp) else
+  -- InitPredictionScheme: the schemes with a parent attribute
+  let (pos, posF, unsupp) ← parentSourcesEb scheme pointIds parent
+  if unsupp != "" then failWith (.unsupported unsupp) else
+  -- DecodeIntegerValues; before 2.0 the quantization / octahedral parameters come first
+  let tr ← if pre20 then decodeTransformParams kind attComponents else pure TransformData.none
+  require (nc > 0)
+  let numValues := numEntries * nc
+  alloc "integer_decoder.portable_attribute" (4 * numValues)
+  require (numEntries > 0)
+  let raw ← readCodedValuesEb pre20 numValues nc
+  let octa := match scheme with
+    | .deltaOcta _ | .geometricNormal _ => true
+    | _ => false
+  let vals : Array Int :=
+    if octa then (raw.map (toSigned 32)).toArray else (raw.map ofSymbol).toArray
+  let out ← applySchemeEb ver scheme md pos posF nc vals
   pure (out, tr)
 
 /-- one iteration of the corner loop of `UpdatePointToAttributeIndexMapping` -/
